@@ -493,6 +493,7 @@ func cmdRouter(prop string, args []string) {
 			}
 			seenSig[v.Signature] = true
 			bp := byTag[v.Project]
+			replayMode := "static"
 			// replay before report: the same group, same schedule seed, in a fresh process
 			vb := v.raw
 			static := map[string]bool{"registration-panic": true, "hidden-documented": true, "served-not-documented": true, "operation-id": true, "documented-not-annotated": true}
@@ -504,15 +505,28 @@ func cmdRouter(prop string, args []string) {
 						found = true
 					}
 				}
+				mode := "minimal-group"
+				if !found {
+					// The violation may depend on what earlier requests left behind in the router's shared state
+					// (that is what a concurrency/history defect looks like). The simulation is deterministic, so
+					// re-running this project's WHOLE seeded workload in a fresh process must find it again.
+					fb := rs.runBatch(o.Seed, o.Tier, []batchProject{bp}, nil)
+					for _, rv := range fb.Violations {
+						if rv.Signature == v.Signature {
+							found, mode = true, "full-project-history"
+						}
+					}
+				}
 				if !found {
 					// never reported as a violation (R7); a harness failure unless replayable violations exist too
 					nonReplayable = append(nonReplayable, v.Signature)
 					continue
 				}
+				replayMode = mode
 			}
 			rep.Report(v.Signature, v.Class, v.Message, map[string]any{
 				"engine": "routersim", "tree_fingerprint": rs.s.Fingerprint, "verif_seed": o.Seed,
-				"batch_project": bp, "violation": v.raw,
+				"batch_project": bp, "violation": v.raw, "replay_mode": replayMode, "tier": o.Tier,
 			})
 		}
 	}
